@@ -22,13 +22,18 @@ MANIFEST = {
             '(with duplicate-free delivered and received label sequences, after ANY interleaving of arrivals and '
             'receives, no exception occurs and the buffer holds exactly the delivered-not-received payloads and the '
             'received-not-delivered futures; buffers are empty iff the two label sets coincide), bm_duplicate_refuted '
-            '(a repeated label raises or orphans a payload); send labels are schedule-independent under wf (from C08). '
+            '(a repeated label raises or orphans a payload); send labels are schedule-independent under wf (from C08); '
+            'labels_unique: for wf programs, if the SEQUENTIAL reading has no two sends to one peer with the same label '
+            '(executable check seq_sends_unique) then in every pair of executions under any schedulers two sends at '
+            'distinct structural positions to one peer carry different labels. '
             'Simulator: independent frame parser over every directed byte stream (no repeated label, frames = logged '
             'sends), send/receive label multisets equal per connection, every connection end replayed through the Coq '
             'buffer machine (mid-run contents and emptiness after shutdown), buffers empty after shutdown.',
-    'note': 'MISSING theorem: labels_unique (two distinct sends on one connection carry different labels) is NOT proved; '
-            'it needs `_hop` (Python tuple hash) injective and sparse, which is only CHECKED on every run: no repeated '
-            'label on any connection, and the observed counter ranges of all contexts of a party are pairwise disjoint. '
+    'note': 'PARTIAL: labels_unique is proved only as a reduction to the sequential reading; that the sequential reading '
+            'is duplicate-free for EVERY program is NOT proved (it needs `_hop`, the Python tuple hash, injective and '
+            'sparse, and one send per peer and counter value inside each protocol). It is CHECKED on every run: '
+            'seq_sends_unique evaluated in Coq on logged call trees with the real hop values, no repeated label on any '
+            'connection (frame parser), observed counter ranges of all contexts of a party pairwise disjoint. '
             'Trusted: Coq kernel + vm_compute; simulator (lib.sim) driving the real MessageExchanger. Programs avoid `%` '
             '(open finding F-C08-1). Per-protocol at_most_one_send_per_peer belongs to C07 (routing); here observed only.',
     'technique': 'Coq proof of the buffer machine + independent frame parser and buffer replay on simulator runs',
@@ -131,6 +136,7 @@ def run(ctx):
     rng = ctx.rng
     stats = collections.Counter()
     exprs, meta = [], []
+    uniq_exprs, uniq_meta = [], []
     t0 = time.time()
     budget = ctx.n(70, 900)
     for ci, (m, t) in enumerate(base.CONFIGS):
@@ -152,8 +158,14 @@ def run(ctx):
                     key0 = {'m': m, 't': t, 'schedule': pn, 'no_prss': no_prss}
                     failed = False
                     for pi, (spec, want) in enumerate(progs + [(wide, None)]):
-                        res, _ = sess.run(spec, pf)
+                        res, starts = sess.run(spec, pf)
                         stats['programs'] += 1
+                        if len(uniq_exprs) < ctx.n(10, 60) and rng.random() < 0.12 and not base.is_bad(res):
+                            party = rng.randrange(m)
+                            tree = sess.mon.tree(party, starts[party])
+                            uniq_exprs.append('(seq_sends_unique %s, List.length (sends %s []))' % (
+                                (base.coq_tree_args(tree, sess.c0[party]),) * 2))
+                            uniq_meta.append(dict(key0, program=pi, party=party))
                         if base.is_bad(res) or (want is not None and any(r != want for r in res)):
                             ctx.violation('program did not complete correctly under %s (m=%d,t=%d)' % (pn.split(':')[0], m, t),
                                           {'case': key0, 'program': spec['ops'], 'results': res, 'want': want,
@@ -233,13 +245,26 @@ def run(ctx):
                 ctx.broken.append({'kind': 'correspondence', 'what': 'coq evaluation failed', 'detail': r[1][:300]})
                 continue
             model = sorted((pc, sl) for pc, sl in r[0])
-            if model != [(pc, k) for pc, k in real] or bool(r[1]) != exc:
+            if model != [(pc, k) for pc, k in real] or r[2] is not exc:
                 ctx.broken.append({'kind': 'correspondence', 'what': 'buffer machine vs MessageExchanger.buffers', 'case': key,
                                    'model': str(model)[:300], 'impl': str(real)[:300]})
             else:
                 good += 1
         ctx.extra['traces_validated_against_impl'] = good
         ctx.log('buffer machine: %d/%d connection-end replays agree' % (good, len(exprs)))
+    # hypothesis of labels_unique, evaluated by Coq on logged call trees with the real hop values
+    if ok and uniq_exprs:
+        res = ctx.coq_eval(['MPyC.PC'], uniq_exprs, chunk=1, timeout=600)
+        nu = 0
+        for r, key in zip(res, uniq_meta):
+            if isinstance(r, tuple) and r and r[0] == 'ERROR':
+                ctx.broken.append({'kind': 'correspondence', 'what': 'coq evaluation failed (seq_sends_unique)', 'detail': r[1][:300]})
+            elif r[0] is not True:
+                ctx.violation('sequential reading of a logged program has two sends to one peer with the same label', {'case': key})
+            else:
+                nu += 1
+                stats['sends_checked_unique_in_coq'] += r[1]
+        ctx.log('seq_sends_unique holds on %d/%d logged call trees (%d sends)' % (nu, len(uniq_exprs), stats['sends_checked_unique_in_coq']))
     ctx.extra['simulator'] = dict(stats)
     if ctx.broken and not ctx.violations:
         ctx.unproved('C09 model/proof/correspondence', {'broken': ctx.broken[:5]})
